@@ -31,6 +31,11 @@ def D(*entries, cap=""):
 
 
 LT2 = D(("length", "m", 2), ("time", "s", -1))
+MIX = D(("length", "m", 1), ("depth", "cm", 1))
+
+
+def _mix():
+    return Quantity.CreateDerived(OrderedDict([("length", ["m", 1]), ("depth", ["cm", 1])]))
 
 
 def _scal(v, u, c=None):
@@ -87,6 +92,24 @@ def _ops():
     q("Array(m)/Array(s) list", lambda db: (Array([1.0, 2.0], "m") / Array([3.0, 4.0], "s")).GetQuantity(), D(("length", "m", 1), ("time", "s", -1)))
     q("2.0/Scalar(s)", lambda db: (2.0 / _scal(4.0, "s")).GetQuantity(), D(("time", "s", -1)))
     q("LT2.MakeCopy(other map)", lambda db: ObtainQuantity([("m", 2), ("s", -1)], ("length", "time")).MakeCopy(OrderedDict([("length", ["cm", 2]), ("time", ["s", -1])])), D(("length", "cm", 2), ("time", "s", -1)))
+    # captions on KNOWN units (the caption is part of the denoted value)
+    q("ObtainQuantity('m','length','label')", lambda db: ObtainQuantity("m", "length", "label"), S("length", "m", "label"))
+    q("ObtainQuantity('m',None,'label')", lambda db: ObtainQuantity("m", None, "label"), S("length", "m", "label"))
+    q("ObtainQuantity('m','length','other label')", lambda db: ObtainQuantity("m", "length", "other label"), S("length", "m", "other label"))
+    q("ObtainQuantity('s',caption='elapsed')", lambda db: ObtainQuantity("s", unknown_unit_caption="elapsed"), S("time", "s", "elapsed"))
+    q("ObtainQuantity('s')", lambda db: ObtainQuantity("s"), S("time", "s"))
+    q("ObtainQuantity(OrderedDict(length:[m,1]),caption='label')", lambda db: ObtainQuantity(OrderedDict([("length", ["m", 1])]), unknown_unit_caption="label"), S("length", "m", "label"))
+    q("Scalar(1,'s')", lambda db: _scal(1.0, "s").GetQuantity(), S("time", "s"))
+    # a derived quantity holding two units of ONE quantity type under two categories (only creatable
+    # directly: arithmetic unifies the units) and arithmetic with it on either side
+    q("CreateDerived(length:m, depth:cm)", lambda db: Quantity.CreateDerived(OrderedDict([("length", ["m", 1]), ("depth", ["cm", 1])])), MIX)
+    q("CreateDerived(length:m, depth:cm, time:s^-1)", lambda db: Quantity.CreateDerived(OrderedDict([("length", ["m", 1]), ("depth", ["cm", 1]), ("time", ["s", -1])])), D(("length", "m", 1), ("depth", "cm", 1), ("time", "s", -1)))
+    q("Scalar(MIX)+Scalar(m*depth(m))", lambda db: (Scalar(_mix(), 2.0) + (_scal(2.0, "m") * _scal(3.0, "m", "depth"))).GetQuantity(), None)
+    q("Scalar(m*depth(m))-Scalar(MIX)", lambda db: ((_scal(2.0, "m") * _scal(3.0, "m", "depth")) - Scalar(_mix(), 2.0)).GetQuantity(), None)
+    q("Scalar(MIX)+Scalar(s) [fails]", lambda db: Scalar(_mix(), 2.0) + _scal(1.0, "s"), None)
+    q("Array(MIX)-Array(m*m) ndarray", lambda db: (Array(_mix(), np.array([1.0, 2.0])) - Array(np.array([1.0, 2.0]), "m") * Array(np.array([1.0, 2.0]), "m")).GetQuantity(), None)
+    q("q(MIX)+q(m2)", lambda db: _mix() + ObtainQuantity("m", "length") * ObtainQuantity("m", "length"), None)
+    q("Scalar(MIX)*Scalar(km)", lambda db: (Scalar(_mix(), 2.0) * _scal(3.0, "km")).GetQuantity(), None)
     # conversions / validation / failing operations (no quantity result)
     q("Scalar(1,'km').GetValue('m')", lambda db: _scal(1.0, "km").GetValue("m"), None)
     q("ObtainQuantity('m').CheckValue(5)", lambda db: ObtainQuantity("m").CheckValue(5.0), None)
